@@ -171,6 +171,12 @@ def c11Check (cfg : Cfg) (depth : Nat) (top : TopView) (tree : Tree) (obs : Opti
 
 /-! ## C12 -/
 
+/-- reference of the LRU as a bounded recency list (least recent first): using or storing a
+key drops it, appends it as most recent, and keeps the `size` most recent entries -/
+def specTouch {V : Type} (size : Nat) (k : String) (v : V) (l : List (String × V)) : List (String × V) :=
+  let l' := l.filter (fun p => p.1 ≠ k) ++ [(k, v)]
+  l'.drop (l'.length - size)
+
 def parseNode (W : World) : VNode → FileNode
   | .dir => .dir
   | .renderError => .renderError
